@@ -53,11 +53,13 @@ func VerifC13Trim() {
 	c := vNewCache(fsys)
 	cur := vNow
 	c.now = func() time.Time { return time.Unix(cur, 0) }
-	sub := vDir + "/a1"
+	// the subdirectory: first, last or one in the middle of the 256
+	pfx := []string{"a1", "ff", "00"}[rt.IntRange(0, rt.Param("SUBS", 2))]
+	sub := vDir + "/" + pfx
 	names := []string{
-		"a1" + strings.Repeat("0", 62) + "-a",
-		"a1" + strings.Repeat("1", 62) + "-d",
-		"trim.txt", "README", "x-b", "-a", "fuzz", "a1-ab",
+		pfx + strings.Repeat("0", 62) + "-a",
+		pfx + strings.Repeat("1", 62) + "-d",
+		"trim.txt", "README", "x-b", "-a", "fuzz", pfx + "-ab",
 	}
 	n := rt.IntRange(0, rt.Param("E", 3))
 	var files []*vEntryFile
